@@ -8,7 +8,7 @@ ROOT="$(cd "$(dirname "$0")/.." && pwd)"
 W="$(mktemp -d /tmp/verif-mutrepo-XXXX)"
 git -C /repo worktree add --detach "$W/repo" HEAD >/dev/null 2>&1 || { echo "worktree failed"; exit 2; }
 ( cd "$W/repo" && git apply "$PATCH" ) || { echo "PATCH DOES NOT APPLY"; git -C /repo worktree remove --force "$W/repo"; rm -rf "$W"; exit 2; }
-cd "$ROOT" && VERIF_REPO="$W/repo" timeout 1800 python3 check.py "$ID" "$TIER" 2>&1 | grep -E "^(VIOLATION|OK|KNOWN|#)" | head -8
+cd "$ROOT" && VERIF_EVIDENCE_DIR="$W/evidence" VERIF_REPO="$W/repo" timeout 1800 python3 check.py "$ID" "$TIER" 2>&1 | grep -E "^(VIOLATION|OK|KNOWN|#)" | head -8
 RC=${PIPESTATUS[0]}
 git -C /repo worktree remove --force "$W/repo" >/dev/null 2>&1; rm -rf "$W"; git -C /repo worktree prune
 exit $RC
